@@ -356,6 +356,11 @@ pub struct InvalidCase {
     /// bystander stream are waiting in its outbound queue
     #[serde(default)]
     pub stalled_sink: bool,
+    /// the endpoint's application has stopped accepting streams and its accept queue (one slot) is full when the invalid message
+    /// arrives, with a further Connect of the peer right behind it: the connection still has to end with the error and resolve
+    /// everything (a Connect dispatched during the wind-down must not wait for room in the accept queue)
+    #[serde(default)]
+    pub full_accept_queue: bool,
 }
 
 pub fn run_invalid(c: &InvalidCase) -> Outcome {
@@ -370,6 +375,16 @@ pub fn run_invalid(c: &InvalidCase) -> Outcome {
             RawEvent { when: Trigger::Quiescent, what: What::Wedge { side: 0 } },
             RawEvent { when: Trigger::AfterEvent(0), what: What::Wake(1) },
             RawEvent { when: Trigger::AfterEvent(1), what: What::Inject { from: 1, msg: RawMsg::Bytes(c.bytes.clone()) } },
+        ];
+    }
+    if c.full_accept_queue && !c.stalled_sink {
+        case.opts[0].stream_buf = 1;
+        case.acceptors[0] = AcceptPolicy::Never;
+        case.events = vec![
+            RawEvent { when: Trigger::Quiescent, what: What::Wake(1) },
+            RawEvent { when: Trigger::AfterEvent(0), what: What::Inject { from: 1, msg: RawMsg::Connect { id: 0x7001, rwnd: 2, port: 9, host: b"fills-the-queue".to_vec() } } },
+            RawEvent { when: Trigger::AfterEvent(1), what: What::Inject { from: 1, msg: RawMsg::Bytes(c.bytes.clone()) } },
+            RawEvent { when: Trigger::AfterEvent(2), what: What::Inject { from: 1, msg: RawMsg::Connect { id: 0x7002, rwnd: 2, port: 9, host: b"behind-the-bad-one".to_vec() } } },
         ];
     }
     if c.silent_peer || c.stalled_sink {
@@ -394,6 +409,9 @@ pub fn run_invalid(c: &InvalidCase) -> Outcome {
     let stuck: Vec<String> = stuck.into_iter().filter(|n| n != "open6").collect();
     if !stuck.is_empty() {
         return Outcome::violation("c10-invalid-pending-ops", format!("after the invalid message {:02x?} these operations never resolved: {stuck:?}; tail: {}", c.bytes, a.ctx(14)));
+    }
+    if c.full_accept_queue && !c.stalled_sink {
+        return Outcome::pass(true, vec!["full-accept-queue-and-a-connect-behind-the-bad-message"]);
     }
     Outcome::pass(true, vec![if c.stalled_sink { "stalled-sink" } else if c.silent_peer { "silent-peer" } else { "peer-answers-close" }])
 }
@@ -542,7 +560,7 @@ pub fn c10(ctx: &Ctx, rep: &mut Report) {
                 2 => (prop::sample::select(vec![0u8, 2, 4, 255]), any::<[u8; 4]>()).prop_map(|(t, id)| { let mut v = vec![0x75]; v.extend(id); v.push(t); v.extend([0, 1, 65]); v }),
                 2 => (0u8..7, prop::collection::vec(any::<u8>(), 4..8)).prop_map(|(op, mut v)| { v.insert(0, 0x70 | op); v.truncate(5 + (op as usize % 3)); v }),
             ];
-            (bytes, any::<bool>(), prop::bool::weighted(0.3), schedule(40)).prop_map(|(bytes, silent_peer, stalled_sink, schedule)| InvalidCase { bytes, silent_peer, text_as_binary: false, schedule, stalled_sink })
+            (bytes, any::<bool>(), prop::bool::weighted(0.3), schedule(40), prop::bool::weighted(0.3)).prop_map(|(bytes, silent_peer, stalled_sink, schedule, full_accept_queue)| InvalidCase { bytes, silent_peer, text_as_binary: false, schedule, stalled_sink, full_accept_queue })
         },
         run_invalid,
     );
